@@ -89,11 +89,23 @@ Instances(pt, i) ==
   IF i > Len(pt) THEN {<<>>}
   ELSE {v \o rest : v \in SegValues(pt[i]), rest \in Instances(pt, i + 1)}
 
+\* two templates of one service with the same number of tokens: mix their values position-wise
+\* (requests that both templates match, e.g. /aaaa/b for /aaaa/{x} and /{y}/b)
+RECURSIVE MixInstances(_, _, _)
+MixInstances(p1, p2, i) ==
+  IF i > Len(p1) THEN {<<>>}
+  ELSE {v \o rest : v \in {x \in SegValues(p1[i]) \cup SegValues(p2[i]) : Len(x) = 1},
+                     rest \in MixInstances(p1, p2, i + 1)}
+
 PathOf(segs) == "/" \o JoinWith(segs, "/")
 DerivedPaths(T) ==
   LET base == UNION {UNION {Instances(T[w].routes[r].pt, 1) : r \in 1..Len(T[w].routes)} : w \in 1..Len(T)}
+      mixed == UNION {UNION {MixInstances(T[w].routes[p[1]].pt, T[w].routes[p[2]].pt, 1) :
+                               p \in {x \in (1..Len(T[w].routes)) \X (1..Len(T[w].routes)) :
+                                        x[1] < x[2] /\ Len(T[w].routes[x[1]].pt) = Len(T[w].routes[x[2]].pt)}} :
+                        w \in 1..Len(T)}
       more == {s \o <<"a">> : s \in base} \cup {SubSeq(s, 1, Len(s) - 1) : s \in {x \in base : Len(x) > 0}}
-  IN {PathOf(s) : s \in base \cup more} \cup {"/"}
+  IN {PathOf(s) : s \in base \cup more \cup mixed} \cup {"/"}
 
 Rq(m, path, ct, acc, clen, clh, conds) ==
   [m |-> m, path |-> path, ct |-> ct, acc |-> acc, clen |-> clen, clh |-> clh, conds |-> conds]
